@@ -38,7 +38,7 @@ type c02op struct {
 	run  func(db *Interface, dbName, ns string, ref map[string]*c02ref, step int) error
 }
 
-var c02keys = []string{"x/a", "x/b", "xy/a", "z", "x/c/d"}
+var c02keys = []string{"x/a", "x/ab", "xy/a", "z", "x/c/d"}
 
 func c02ops() []c02op {
 	var ops []c02op
@@ -220,7 +220,7 @@ func c02observe(db *Interface, dbName, ns string, ref map[string]*c02ref, flush 
 	if d := flush(); d != "" {
 		return d
 	}
-	for _, prefix := range []string{"", "x", "x/", "xy", "x/c", "x/c/d", "z", "y"} {
+	for _, prefix := range []string{"", "x", "x/", "x/a", "xy", "x/c", "x/c/d", "z", "y"} {
 		for ci, minScore := range []int{-1, 2, -2, -3} {
 			qq := q.New(dbName + ":" + ns + prefix)
 			switch {
@@ -314,10 +314,10 @@ func TestBoundedC02RefMap(t *testing.T) {
 		named("Put(x/a)", "Delete(x/a)", "MaintainRecordStates()", "Put(x/a)"),
 		named("Put(x/a)", "Delete(x/a)", "Put(x/a)", "MaintainRecordStates()"),
 		named("Put(x/a)", "Put(xy/a)", "Delete(x/a)", "MaintainRecordStates()", "Maintain()"),
-		named("PutExpired(x/b)", "MaintainRecordStates()", "PutNew(x/b)", "Delete(x/b)"),
+		named("PutExpired(x/ab)", "MaintainRecordStates()", "PutNew(x/ab)", "Delete(x/ab)"),
 		named("Put(x/c/d)", "Put(x/a)", "ExpireInPast(x/c/d)", "MaintainRecordStates()", "Put(x/c/d)"),
 		named("Put(z)", "ExpireInFuture(z)", "Put(z)", "MaintainRecordStates()", "Delete(z)", "Delete(z)"),
-		named("PutNew(x/a)", "PutNew(x/b)", "Delete(x/a)", "Delete(x/b)", "MaintainRecordStates()", "PutNew(x/b)"),
+		named("PutNew(x/a)", "PutNew(x/ab)", "Delete(x/a)", "Delete(x/ab)", "MaintainRecordStates()", "PutNew(x/ab)"),
 	}
 	seqNo := 0
 	for ci, c := range cfgs {
@@ -423,13 +423,13 @@ func TestBoundedC02RefMap(t *testing.T) {
 		}
 		if c.delayed {
 			// more entries than the cache holds; an emptied read cache while writes are delayed
-			runSeq(named("Put(x/a)", "Put(x/b)", "Put(xy/a)", "Put(z)", "Delete(x/a)", "Put(x/c/d)", "PutNew(x/a)"))
-			runSeq(named("Put(x/a)", "Put(x/b)", "ClearCache()", "Put(xy/a)", "Put(z)"))
-			runSeq(named("Put(x/a)", "Put(x/b)", "Put(z)", "ClearCache()", "Put(x/b)", "Put(xy/a)", "Put(x/c/d)"))
+			runSeq(named("Put(x/a)", "Put(x/ab)", "Put(xy/a)", "Put(z)", "Delete(x/a)", "Put(x/c/d)", "PutNew(x/a)"))
+			runSeq(named("Put(x/a)", "Put(x/ab)", "ClearCache()", "Put(xy/a)", "Put(z)"))
+			runSeq(named("Put(x/a)", "Put(x/ab)", "Put(z)", "ClearCache()", "Put(x/ab)", "Put(xy/a)", "Put(x/c/d)"))
 		}
 		_ = ci
 	}
-	fmt.Printf("BOUNDED name=C02/reference-map cases=%d distinct=%d bound=every sequence of up to 2 operations (3 on one hashmap configuration in the thorough tier; there, and on bbolt, fstree and badger, the first operation only on one key) out of %d operation instances (put, put-new, delete, put of an expired record, expiry in the past, expiry in the future on 5 keys sharing prefixes and path separators; batch put of two records; purge of a key prefix; record-state maintenance; maintenance) plus %d longer sequences (re-put after delete and maintenance, expiry then maintenance, double delete), on hashmap, bbolt, fstree and badger x shadow delete on/off x read cache off/on, and on hashmap and bbolt with a delayed write cache of 2 and of 64 entries (there: put, put-new, delete and expiry operations, gets after every step, queries after a flush at the end, 3 longer sequences with more entries than the cache holds and with the read cache emptied in between); after every step Get and Exists of all keys and 32 queries (8 key prefixes incl. non-boundary prefixes x no condition / integer condition / string condition / string operator on a number field) are compared with a reference map\n",
+	fmt.Printf("BOUNDED name=C02/reference-map cases=%d distinct=%d bound=every sequence of up to 2 operations (3 on one hashmap configuration in the thorough tier; there, and on bbolt, fstree and badger, the first operation only on one key) out of %d operation instances (put, put-new, delete, put of an expired record, expiry in the past, expiry in the future on 5 keys sharing prefixes and path separators (one key is a plain-string prefix of another); batch put of two records; purge of a key prefix; record-state maintenance; maintenance) plus %d longer sequences (re-put after delete and maintenance, expiry then maintenance, double delete), on hashmap, bbolt, fstree and badger x shadow delete on/off x read cache off/on, and on hashmap and bbolt with a delayed write cache of 2 and of 64 entries (there: put, put-new, delete and expiry operations, gets after every step, queries after a flush at the end, 3 longer sequences with more entries than the cache holds and with the read cache emptied in between); after every step Get and Exists of all keys and 36 queries (9 key prefixes incl. prefixes inside a path segment and a prefix that is itself a key extended by another key x no condition / integer condition / string condition / string operator on a number field) are compared with a reference map\n",
 		cases, cases, len(ops), len(extra))
 	if fails > 0 {
 		t.Fatalf("%d of %d sequences differ from the reference map", fails, cases)
